@@ -187,13 +187,17 @@ def make_api(it, session: Session):
     @reg("stub")
     def stub(it_, a, k):
         cls, meth, fn = a
-        it.stubs[(cls.qualname, meth)] = fn
+        m, _ = cls.lookup(meth)
+        owner = getattr(m, "owner", None) or cls        # an inherited method is replaced where it is defined
+        it.stubs[(owner.qualname, meth)] = fn
         return None
 
     @reg("unstub")
     def unstub(it_, a, k):
         cls, meth = a
-        it.stubs.pop((cls.qualname, meth), None)
+        m, _ = cls.lookup(meth)
+        owner = getattr(m, "owner", None) or cls
+        it.stubs.pop((owner.qualname, meth), None)
         return None
 
     # ---------------------------------------------------------------- heap snapshots
